@@ -1,11 +1,18 @@
-(** C07 — Value encodings round-trip bit-exactly.  Property theorems only. *)
-From Verif Require Import Base.Prelude Model.C07_s8b Proofs.C07_s8b.
+(** C07 — Value encodings round-trip bit-exactly.  Property theorems only.
+
+    Values: int64/uint64 are their 64-bit two's-complement patterns, floats their IEEE-754
+    bit patterns (so "bit-identical" is literal), bytes are numbers.  Every theorem is for
+    lists of ANY length.  "scalar" = the iterator-style encoders/decoders of int.go,
+    timestamp.go, float.go, bool.go, string.go; "batch" = the *ArrayEncodeAll /
+    *ArrayDecodeAll of batch_*.go. *)
+From Verif Require Import Base.Prelude Model.C07_s8b Model.C07_int Model.C07_float Model.C07_str.
+From Verif Require Import Proofs.C07_s8b Proofs.C07_int Proofs.C07_float Proofs.C07_str.
 Local Open Scope N_scope.
 
 (** ** simple8b *)
 
-(** in-repo EncodeAll: every list (any length) of values < 2^60 is accepted and DecodeAll
-    of the produced words returns the list; CountBytes returns its length. *)
+(** in-repo EncodeAll: every list of values < 2^60 is accepted and DecodeAll of the produced
+    words returns the list; CountBytes returns its length. *)
 Theorem C07_s8b_roundtrip : forall l,
   Forall (fun v => v < 2 ^ 60) l ->
   exists ws, encode_all l = Some ws /\ decode_all ws = l /\ count_words ws = length l.
@@ -43,7 +50,127 @@ Theorem C07_s8b_stream_rejects : forall l,
 Proof. exact stream_encode_rejects. Qed.
 Print Assumptions C07_s8b_stream_rejects.
 
-(** Non-vacuity: a run of 240 ones followed by a value that needs 60 bits. *)
+(** ** integer / unsigned *)
+
+(** Every list of 64-bit patterns (MinInt64 = 2^63, MaxInt64, MaxUint64 included) is
+    accepted by the scalar IntegerEncoder and by Integer/UnsignedArrayEncodeAll, and BOTH
+    decoders return exactly the input on EITHER encoder's bytes (RLE, simple8b and
+    uncompressed formats; the delta and zig-zag arithmetic wraps mod 2^64). *)
+Theorem C07_int_roundtrip : forall vs,
+  Forall (fun v => v < 2 ^ 64) vs -> N.of_nat (length vs) < 2 ^ 64 ->
+  (exists b, int_encode_scalar vs = Some b /\
+             int_decode_scalar b = Some vs /\ int_decode_batch b = Some vs) /\
+  (exists b, int_encode_batch vs = Some b /\
+             int_decode_scalar b = Some vs /\ int_decode_batch b = Some vs).
+Proof. exact int_roundtrip. Qed.
+Print Assumptions C07_int_roundtrip.
+
+(** the pattern view loses nothing: int64 <-> pattern is a bijection *)
+Definition of_int64 (z : Z) : N := Z.to_N (z mod 2 ^ 64)%Z.
+Definition to_int64 (n : N) : Z := if n <? 2 ^ 63 then Z.of_N n else (Z.of_N n - 2 ^ 64)%Z.
+Theorem C07_int64_pattern_bijective : forall z,
+  (- 2 ^ 63 <= z < 2 ^ 63)%Z -> of_int64 z < 2 ^ 64 /\ to_int64 (of_int64 z) = z.
+Proof.
+  intros z Hz. unfold of_int64, to_int64.
+  assert (E : (z mod 2 ^ 64 = if z <? 0 then z + 2 ^ 64 else z)%Z).
+  { destruct (Z.ltb_spec z 0).
+    - symmetry. apply Z.mod_unique with (-1)%Z; lia.
+    - apply Z.mod_small. lia. }
+  rewrite E. destruct (Z.ltb_spec z 0) as [Hn|Hn].
+  - split; [lia|]. destruct (N.ltb_spec (Z.to_N (z + 2 ^ 64)) (2 ^ 63)); lia.
+  - split; [lia|]. destruct (N.ltb_spec (Z.to_N z) (2 ^ 63)); lia.
+Qed.
+Print Assumptions C07_int64_pattern_bijective.
+
+(** ** timestamps (no sortedness assumption: negative deltas wrap and force the raw format) *)
+Theorem C07_time_roundtrip : forall ts,
+  Forall (fun v => v < 2 ^ 64) ts -> N.of_nat (length ts) < 2 ^ 64 ->
+  (exists b, time_encode_scalar ts = Some b /\
+             time_decode_scalar b = Some ts /\ time_decode_batch b = Some ts) /\
+  (exists b, time_encode_batch ts = Some b /\
+             time_decode_scalar b = Some ts /\ time_decode_batch b = Some ts).
+Proof. exact time_roundtrip. Qed.
+Print Assumptions C07_time_roundtrip.
+
+(** ** booleans *)
+Theorem C07_bool_roundtrip : forall bs,
+  N.of_nat (length bs) < 2 ^ 64 ->
+  bool_decode (bool_encode bs) = Some bs /\ bool_decode (bool_encode_scalar bs) = Some bs.
+Proof. exact bool_roundtrip. Qed.
+Print Assumptions C07_bool_roundtrip.
+
+(** ** floats *)
+
+(** Scalar FloatEncoder: every NaN-free list of IEEE-754 patterns (+-0, subnormals, +-Inf
+    included) is accepted and both decoders return it bit-identically. *)
+Theorem C07_float_roundtrip : forall vs,
+  Forall (fun v => v < 2 ^ 64 /\ is_nan v = false) vs ->
+  float_encode_scalar vs = Some (float_bytes vs) /\
+  float_decode_scalar (float_bytes vs) = Some vs /\
+  float_decode_batch (float_bytes vs) = Some vs.
+Proof. exact float_roundtrip. Qed.
+Print Assumptions C07_float_roundtrip.
+
+(** NaN is the end-of-stream sentinel: any NaN payload anywhere is rejected *)
+Theorem C07_float_rejects_nan : forall vs,
+  Exists (fun v => is_nan v = true) vs -> float_encode_scalar vs = None.
+Proof. exact float_rejects_nan. Qed.
+Print Assumptions C07_float_rejects_nan.
+
+(** Batch FloatArrayEncodeAll.  FULL STATEMENT (refuted below):
+      forall vs, Forall (fun v => v < 2^64 /\ is_nan v = false) vs ->
+                 float_encode_batch vs = Some (float_bytes vs).
+    Proved part: WHENEVER the batch encoder accepts a NaN-free list, its bytes are those of
+    the scalar encoder and both decoders return the list bit-identically. *)
+Theorem C07_float_batch_roundtrip_partial : forall vs b,
+  Forall (fun v => v < 2 ^ 64 /\ is_nan v = false) vs ->
+  float_encode_batch vs = Some b ->
+  float_encode_scalar vs = Some b /\
+  float_decode_scalar b = Some vs /\ float_decode_batch b = Some vs.
+Proof.
+  intros vs b Hvs E. destruct (float_roundtrip vs Hvs) as (Es & Ds & Db).
+  assert (Eb : b = float_bytes vs).
+  { unfold float_encode_batch in E. destruct vs as [|first r]; [inversion E; reflexivity|].
+    destruct (is_nan first); [discriminate|]. destruct (sum_is_nan r); [discriminate|].
+    inversion E; reflexivity. }
+  subst b. auto.
+Qed.
+Print Assumptions C07_float_batch_roundtrip_partial.
+
+(** The batch encoder does NOT accept every NaN-free list: it sums src[1:] and rejects when
+    the sum is NaN, e.g. [1.0; +Inf; -Inf] (confirmed on the real code: known finding
+    float-batch-sum-nan). *)
+Theorem C07_float_batch_roundtrip_refuted :
+  exists vs, Forall (fun v => v < 2 ^ 64 /\ is_nan v = false) vs /\
+             float_encode_batch vs = None /\ float_encode_scalar vs <> None.
+Proof.
+  exists [0x3FF0000000000000; 0x7FF0000000000000; 0xFFF0000000000000].
+  split; [|split].
+  - repeat constructor; vm_compute; reflexivity.
+  - vm_compute. reflexivity.
+  - vm_compute. discriminate.
+Qed.
+Print Assumptions C07_float_batch_roundtrip_refuted.
+
+(** ** strings: snappy is a parameter pair with [decompress (compress b) = Some b] *)
+Theorem C07_string_roundtrip :
+  forall (compress : list N -> list N) (decompress : list N -> option (list N)),
+  (forall b, decompress (compress b) = Some b) ->
+  forall ss, Forall (fun s => N.of_nat (length s) < 2 ^ 64) ss ->
+  str_decode decompress (str_encode compress ss) = Some ss.
+Proof. exact str_roundtrip. Qed.
+Print Assumptions C07_string_roundtrip.
+
+(** ** block framing: type byte, uvarint length of the timestamp block, both blocks *)
+Theorem C07_block_roundtrip : forall typ ts vals,
+  N.of_nat (length ts) < 2 ^ 64 -> unpack_block (pack_block typ ts vals) = Some (typ, ts, vals).
+Proof. exact block_roundtrip. Qed.
+Print Assumptions C07_block_roundtrip.
+
+(** ** Non-vacuity *)
+
+(** a run of 240 ones followed by a value that needs 60 bits: the two EncodeAll variants
+    pack it differently and both decode *)
 Example C07_nonvacuous_s8b :
   let l := repeat 1 240 ++ [2 ^ 60 - 1; 5] in
   Forall (fun v => v < 2 ^ 60) l /\
@@ -56,4 +183,22 @@ Proof.
     + destruct Hx as [<-|[<-|[]]]; reflexivity.
   - vm_compute. reflexivity.
   - vm_compute. discriminate.
+Qed.
+
+(** MinInt64, MaxInt64, -1, 0: uncompressed integer format; scalar and batch bytes differ
+    for [2^62; 2^62+1; 2^62+5] (first value too large for the scalar encoder only) *)
+Example C07_nonvacuous_int :
+  int_encode_scalar [2 ^ 63; 2 ^ 63 - 1; 2 ^ 64 - 1; 0] <> Some [] /\
+  int_encode_scalar [2 ^ 62; 2 ^ 62 + 1; 2 ^ 62 + 5] <> int_encode_batch [2 ^ 62; 2 ^ 62 + 1; 2 ^ 62 + 5] /\
+  time_encode_scalar [1000; 2000; 3000; 4500] = Some [18; 0; 0; 0; 0; 0; 0; 3; 232; 208; 0; 15; 0; 0; 160; 0; 10].
+Proof. repeat split; vm_compute; try discriminate; reflexivity. Qed.
+
+(** floats: -0.0, a subnormal, +Inf, 1.0 round-trip; the stream is not just the raw words *)
+Example C07_nonvacuous_float :
+  let vs := [2 ^ 63; 1; 0x7FF0000000000000] ++ repeat 0x3FF0000000000000 9 in
+  Forall (fun v => v < 2 ^ 64 /\ is_nan v = false) vs /\
+  float_decode_batch (float_bytes vs) = Some vs /\ length (float_bytes vs) = 45%nat.
+Proof.
+  cbv zeta. split; [repeat constructor; vm_compute; reflexivity|].
+  split; vm_compute; reflexivity.
 Qed.
